@@ -873,6 +873,7 @@ def run(chk, F):
         cm.rule_r2(chk, c, R, M)
         rule_r3(chk, c, R, M)
         rule_r5(chk, c, R)
+        rule_r6(chk, F)
     except (Uninterpretable, cm.Unint) as e:
         # a construct the rules cannot interpret is an analysis failure (exit 2), never a violation
         raise factsmod.AnalysisError("C11", "cannot interpret: %s" % e)
@@ -881,3 +882,67 @@ def run(chk, F):
         "matrix, guards marked and non-covering, verdict reported as an error, constructor totals/arity taken from the "
         "definitions); the exactness of the recursive matrix procedure itself is value-level and not decided",
     ]
+
+
+def rule_r6(chk, F):
+    """C11.R6: the dense lowering of a match over Int64 literals subtracts the first literal and truncates the offset
+    to Int32 for `Switch`.  The truncation is only sound between two emitted guards: selector < first and selector >
+    last both jump to the default arm *before* the offset is narrowed — otherwise a value that is congruent to a table
+    slot modulo 2^32 (literal - 2^32) selects that literal's arm instead of the wildcard arm ("selects the first arm
+    whose pattern holds")."""
+    r = chk.rule("C11.R6", "jump-table lowering of Int64 matches: the truncation of the selector offset to Int32 is "
+                           "preceded by emitted guards against both ends of the literal range (lower and upper), each "
+                           "jumping to the default arm")
+    fe = F.crate("dora_frontend")
+    sites = []
+    for p, b in fe.hir.items():
+        if "generator" not in p:
+            continue
+        for n in hirq.walk(b["body"]):
+            if n[0] == "mcall" and n[3] == "int64_to_int32":
+                sites.append((p, b))
+                break
+    if not r.anchor("generator function that narrows an Int64 selector with int64_to_int32", sites):
+        return
+
+    def guards_in(body, depth=0, seen=None):
+        """comparison emitters paired with a conditional jump, in this body and in generator helpers it calls"""
+        seen = seen if seen is not None else set()
+        kinds = []
+        names = []
+        for n in hirq.walk(body):
+            if n[0] == "mcall" and n[3].startswith("emit_test_"):
+                names.append(n[3])
+            if n[0] == "call" and hirq.is_node(n[2]) and n[2][:2] == ["def", "fn"] and n[2][2] in fe.hir \
+                    and n[2][2] not in seen and depth < 2 and "generator" in n[2][2]:
+                seen.add(n[2][2])
+                kinds += guards_in(fe.hir[n[2][2]]["body"], depth + 1, seen)
+        jumps = sum(1 for n in hirq.walk(body) if n[0] == "mcall" and n[3] in ("emit_jump_if_true", "emit_jump_if_false"))
+        for nm in names[:jumps]:
+            kinds.append(nm)
+        return kinds
+
+    for p, b in sites:
+        # the arm (or function) that contains the narrowing: guards emitted before it in the same arm
+        arm = None
+        for n in hirq.walk(b["body"]):
+            if n[0] == "match":
+                for pat, guard, body in n[2]:
+                    if any(m[0] == "mcall" and m[3] == "int64_to_int32" for m in hirq.walk(body)):
+                        arm = body
+        scope = arm if arm is not None else b["body"]
+        kinds = guards_in(scope)
+        lower = [k for k in kinds if k in ("emit_test_lt", "emit_test_le")]
+        upper = [k for k in kinds if k in ("emit_test_gt", "emit_test_ge")]
+        r.instance("%s:int64-offset-narrowing" % p, sample={"function": last(p), "guards": kinds})
+        where = "%s:%d" % (b["file"], b["line"])
+        if not lower:
+            r.violation("%s:int64-offset-narrowing:no-lower-bound-guard" % p,
+                        "the Int64 selector offset is truncated to Int32 without an emitted guard `selector < first → "
+                        "default`: a value below the first literal whose offset is congruent to a table slot modulo "
+                        "2^32 (e.g. literal - 4294967296) passes Switch's own bounds check and selects that literal's "
+                        "arm instead of the wildcard arm", where)
+        if not upper:
+            r.violation("%s:int64-offset-narrowing:no-upper-bound-guard" % p,
+                        "the Int64 selector offset is truncated to Int32 without an emitted guard `selector > last → "
+                        "default`: first + 2^32 selects the first literal's arm", where)
